@@ -8,12 +8,19 @@ for id in $IDS; do
   d=$SRC/$id
   [ -f $d/patch.diff ] || continue
   cd /repo
-  if ! (git apply --3way $d/patch.diff 2>/dev/null || git apply $d/patch.diff 2>/dev/null); then echo "$id: PATCH-DOES-NOT-APPLY"; git checkout -q -- .; continue; fi
+  pf=$d/patch.diff
+  # a patch written against an older HEAD may have been ported (same defect, current code)
+  for alt in $d/patch_ported*.diff; do [ -f "$alt" ] && pf=$alt; done
+  if ! git apply --check $pf 2>/dev/null; then
+    if ! git apply --3way $pf 2>/dev/null; then echo "$id: PATCH-DOES-NOT-APPLY"; git reset -q --hard HEAD; continue; fi
+  else
+    git apply $pf
+  fi
   git reset -q
   cd /verif
   pid=${id:0:3}; out=$(./check $pid --tier quick 2>&1); rc=$?
   nv=$(echo "$out" | grep -c "^VIOLATION")
   first=$(echo "$out" | grep "^VIOLATION" | head -1 | cut -c1-170)
   echo "$id: rc=$rc violations=$nv $first $(echo "$out" | grep -E "TOOL-ERROR" | head -1 | cut -c1-200)"
-  cd /repo && git checkout -q -- . && git clean -fdq -e target
+  cd /repo && git reset -q --hard HEAD && git clean -fdq -e target
 done
